@@ -831,6 +831,10 @@ func (g *gen) elabCall(x *Expr, e *env) (Val, error) {
 			if at, ok := a.GoT.Underlying().(*types.Array); ok {
 				return intVal(fmt.Sprint(at.Len())), nil
 			}
+			if _, ok := a.GoT.Underlying().(*types.Chan); ok {
+				comp := g.ctx.comp("chanlen", "(Array Int Int)")
+				return intVal("(select " + g.stGet(e.st, comp) + " " + a.T + ")"), nil
+			}
 		}
 		return Val{}, fmt.Errorf("len of %s", a.S)
 	case "cap":
